@@ -166,8 +166,14 @@ func c07Writer() {
 	} else {
 		write = func() error { return fw.WriteMessage(&hd.MessageVerifTag{Index: uint32(len(cw.writes))}) }
 	}
+	// preemption: under stall injection time may pass at any scheduling point, clock reads included
+	stalls := dsim.Choose(3) == 2
+	if stalls {
+		dsim.EnableStalls(100 + dsim.Choose(300))
+		count("fault:preemption-at-clock-reads")
+	}
 	n := 2 + dsim.Choose(12)
-	var nows []time.Time
+	var nows, afters []time.Time
 	for i := 0; i < n; i++ {
 		now := time.Now()
 		if err := write(); err != nil {
@@ -175,6 +181,7 @@ func c07Writer() {
 			return
 		}
 		nows = append(nows, now)
+		afters = append(afters, time.Now())
 		switch dsim.Choose(5) {
 		case 0:
 		case 1:
@@ -198,7 +205,14 @@ func c07Writer() {
 	var prev uint64
 	for i, f := range frames {
 		want := uint64(nows[i].Sub(sigEpoch) / (10 * time.Microsecond))
-		if f.Timestamp != want {
+		if stalls {
+			// the stamp is the clock at some instant of the call
+			hi := uint64(afters[i].Sub(sigEpoch) / (10 * time.Microsecond))
+			if f.Timestamp < want || f.Timestamp > hi {
+				dsim.Failf("sign-clock", "frame %d written between %v and %v carries timestamp %d, outside [%d, %d] = floor((clock-2015-01-01)/10us) over the call", i, nows[i], afters[i], f.Timestamp, want, hi)
+				return
+			}
+		} else if f.Timestamp != want {
 			dsim.Failf("sign-clock", "frame %d written at %v carries timestamp %d, want floor((now-2015-01-01)/10us) = %d", i, nows[i], f.Timestamp, want)
 			return
 		}
